@@ -3,6 +3,7 @@ from fractions import Fraction
 
 from .. import expralg as ea
 from .. import fn
+from ..interp import Interp
 from ..framework import AnalysisError
 from ..interp import AbsRaise, Interp
 from ..values import App, ClassV, Ext, Lin, Obj, Sym
@@ -31,6 +32,46 @@ def classes_with(m, method):
         if isinstance(v, ClassV) and v.module is m and v.lookup(method)[1] is not None and v not in out:
             out.append(v)
     return out
+
+
+class SameVoltage:
+    """every analog input reads one and the same symbolic voltage"""
+
+    def __init__(self):
+        self.v = Sym("V", "num", tag=("ext", 0), uid=0)
+
+    def ext_call(self, it, fn_, args, kwargs, node):
+        if fn_.path.endswith("getVoltage") or fn_.path.endswith("getAverageVoltage"):
+            it.emit("ext", fn_.path, args, kwargs, node=node, extra=self.v)
+            return self.v
+        return NotImplemented
+
+
+def isolation(ctx, md, drivers):
+    from ..values import vkey
+
+    ctx.rule("C17.O6", "a reading of one sensor does not depend on earlier readings of another sensor (same or different model) at the same voltage")
+    n = 0
+    for B in drivers:
+        ref_it = Interp(ctx.program, hooks=SameVoltage())
+        try:
+            ref = ref_it.call(ref_it.getattr(ref_it.call(B, [Sym("portB", "num")], {}), "getDistance"), [], {})
+        except Exception:
+            continue  # judged by O1
+        for A in drivers:
+            it = Interp(ctx.program, hooks=SameVoltage())
+            try:
+                a = it.call(A, [Sym("portA", "num")], {})
+                b = it.call(B, [Sym("portB", "num")], {})
+                it.call(it.getattr(a, "getDistance"), [], {})
+                got = it.call(it.getattr(b, "getDistance"), [], {})
+            except Exception:
+                continue
+            n += 1
+            site = (md.filename, B.node.lineno, B.name + ".getDistance")
+            ctx.require(vkey(got) == vkey(ref), "C17.O6", f"{B.name} after {A.name} at the same voltage == {B.name} alone",
+                        f"{B.name}.getDistance() returns {got!r} after a {A.name} sensor was read at the same voltage, but {ref!r} on its own: state is shared between sensors", site=site, key=f"C17.O6|{A.name}|{B.name}")
+    ctx.floor("sensor pairs checked for isolation", n, 9)
 
 
 def check(ctx):
@@ -125,6 +166,8 @@ def check(ctx):
             good = (c == hi_d and upper is not None and lower is None) or (c == lo_d and lower is not None and upper is None)
             ctx.require(good, "C17.O3", f"{K.name}: literal {float(c)} returned only at the matching end of the voltage range", f"{K.name}.getDistance returns the literal {float(c)} for voltages in ({lower}, {upper}): not the clamp limit the (non-increasing) reading has there", site=site, key=f"C17.O3|{K.name}|const")
     ctx.require(len(found) == 3, "C17.O4", "each of the three datasheet laws is implemented by one driver", f"only {len(found)} of the three datasheet laws are implemented", site=(md.filename, 1, "module"), key="C17.O4|count")
+    # ---- O6 the models do not influence one another (nothing shared between instances of different drivers)
+    isolation(ctx, md, drivers)
     # ---- simulation twins
     ms = fn.module(ctx, SIM)
     sims = classes_with(ms, "setDistance")
